@@ -192,6 +192,7 @@ def run(chk, only=None):
             if ex.bound_hit:
                 chk.inconclusive_note(f"{cname}: path bound hit")
             for p in paths:
+                ctx.assign = dict(p.assign)  # replays fall back to this path's witness point
                 if p.kind == "exc":
                     raised += 1
                     chk.notes.append(f"{cname}: raises {type(p.value).__name__}: {str(p.value)[:80]} (C16 owns dispatch failures)")
